@@ -327,7 +327,7 @@ func RunCheck(id, tier string, seed int64) int {
 	}, len(spaces))
 	var harnessPanics []string
 	next := 0
-	var outOfBudget atomic.Bool
+	var outOfBudget, tooManyLosses atomic.Bool
 	take := func() (chunk, bool) {
 		mu.Lock()
 		defer mu.Unlock()
@@ -336,6 +336,12 @@ func RunCheck(id, tier string, seed int64) int {
 			return chunk{}, false
 		}
 		if next >= len(queue) {
+			return chunk{}, false
+		}
+		if len(crashes) >= 12 {
+			// only the first 12 worker losses are examined: a sweep in which every worker generation is lost after a
+			// full watchdog period gains nothing by going on (the run is reported as not exhaustive)
+			tooManyLosses.Store(true)
 			return chunk{}, false
 		}
 		c := queue[next]
@@ -576,6 +582,10 @@ func RunCheck(id, tier string, seed int64) int {
 		}
 	}
 
+	if tooManyLosses.Load() {
+		res.Exhaustive = false
+		res.Caps = append(res.Caps, fmt.Sprintf("12 worker losses on record: the sweep was stopped after %d of %d chunks", next, len(queue)))
+	}
 	if outOfBudget.Load() {
 		res.Exhaustive = false
 		res.Caps = append(res.Caps, fmt.Sprintf("wall-clock budget %v reached after %d of %d chunks", budget, next, len(queue)))
